@@ -183,8 +183,8 @@ def check_hpwl(ctx, rep):
         "X": ("bin", "+", ("call", CQ + "Circuit::x", ("this",), cell), ("call", CQ + "Circuit::pinXOffset", ("this",), net, pin)),
         "Y": ("bin", "+", ("call", CQ + "Circuit::y", ("this",), cell), ("call", CQ + "Circuit::pinYOffset", ("this",), net, pin)),
     }
-    # min/max accumulation per axis
-    acc = {}
+    # min/max accumulation per axis (identified by what is accumulated, not by variable names)
+    accs = []
     for x in walk(pin_loop["body"]):
         if x.get("kind") == "BinaryOperator" and x.get("opcode") == "=":
             l, r = children(x)
@@ -192,20 +192,24 @@ def check_hpwl(ctx, rep):
             if lc[0] == "var" and rc[0] == "call" and rc[1] in ("min", "max") and len(rc) == 5:
                 other = [a for a in rc[3:] if a != lc]
                 if len(other) == 1:
-                    acc[(rc[1], lc[2])] = (x, expand_locals(ctx, f, other[0]))
-    for axis in ("X", "Y"):
-        for mm in ("min", "max"):
-            key = (mm, mm + axis)
-            if key not in acc:
-                rep.violation("H1", pin_loop["stmt"], f, "%s%s is not accumulated over the pins" % (mm, axis), "no `%s%s = std::%s(.., %s%s)`" % (mm, axis, mm, mm, axis),
-                              key="Circuit::hpwl|%s%s not accumulated" % (mm, axis))
-                continue
-            x, val = acc[key]
-            if _commut_eq(val, want[axis]):
-                rep.holds("H1", x, f, "%s%s accumulates %s" % (mm, axis, pretty(val)))
-            else:
-                rep.violation("H1", x, f, "%s%s accumulates %s" % (mm, axis, pretty(val)), "expected %s" % pretty(want[axis]),
-                              key="Circuit::hpwl|%s%s wrong pin position" % (mm, axis))
+                    accs.append((rc[1], lc, x, expand_locals(ctx, f, other[0])))
+    if not accs:
+        rep.unknown("H1", pin_loop["stmt"], f, "bounding box", "no `v = std::min/max(v, position)` accumulation recognised")
+        return
+    role = {}
+    for fn, var, x, val in accs:
+        ax = "X" if _commut_eq(val, want["X"]) else ("Y" if _commut_eq(val, want["Y"]) else None)
+        if ax is None:
+            rep.violation("H1", x, f, "%s accumulates %s" % (var[2], pretty(val)), "not a pin position x(cell)+pinXOffset(net,pin) / y(cell)+pinYOffset(net,pin) of this net",
+                          key="Circuit::hpwl|wrong pin position accumulated")
+            continue
+        role[(fn, ax)] = var
+        rep.holds("H1", x, f, "%s over pins of %s" % (fn, pretty(val)))
+    for ax in ("X", "Y"):
+        for fn in ("min", "max"):
+            if (fn, ax) not in role:
+                rep.violation("H1", pin_loop["stmt"], f, "no %s of the %s pin positions is accumulated" % (fn, ax.lower()), "the bounding box of the net is incomplete",
+                              key="Circuit::hpwl|%s %s not accumulated" % (fn, ax))
     # extents added to the result
     added = []
     for x in walk(net_loop["body"]):
@@ -213,19 +217,24 @@ def check_hpwl(ctx, rep):
             l, r = children(x)
             rc = canon(r)
             if rc[0] == "bin" and rc[1] == "-" and rc[2][0] == "var" and rc[3][0] == "var":
-                added.append((rc[2][2], rc[3][2], x))
-    for axis in ("X", "Y"):
-        hit = [a for a in added if a[0] == "max" + axis and a[1] == "min" + axis]
+                added.append((rc[2], rc[3], x))
+    for ax in ("X", "Y"):
+        mx, mn = role.get(("max", ax)), role.get(("min", ax))
+        if mx is None or mn is None:
+            continue
+        hit = [a for a in added if a[0] == mx and a[1] == mn]
         if len(hit) == 1:
-            rep.holds("H1", hit[0][2], f, "ret += max%s - min%s" % (axis, axis))
+            rep.holds("H1", hit[0][2], f, "ret += (max - min) of the %s pin positions" % ax.lower())
         else:
-            rep.violation("H1", net_loop["stmt"], f, "extent max%s - min%s added %d time(s) to the result" % (axis, axis, len(hit)),
-                          "half-perimeter is the sum of exactly one x extent and one y extent per net",
-                          key="Circuit::hpwl|%s extent added %d times" % (axis, len(hit)))
-    bad = [a for a in added if (a[0][-1] != a[1][-1])]
-    for a in bad:
-        rep.violation("H1", a[2], f, "mixed-axis extent %s - %s" % (a[0], a[1]), "x and y must not be combined",
-                      key="Circuit::hpwl|mixed-axis extent")
+            rep.violation("H1", net_loop["stmt"], f, "%s extent added %d time(s) to the result" % (ax.lower(), len(hit)),
+                          "half-perimeter is the sum of exactly one x extent and one y extent per net", key="Circuit::hpwl|%s extent added %d times" % (ax, len(hit)))
+    known = {v for v in role.values()}
+    for a in added:
+        if a[0] in known and a[1] in known:
+            axes = {k[1] for k, v in role.items() if v in (a[0], a[1])}
+            kinds = [k[0] for k, v in role.items() if v == a[0]] + [k[0] for k, v in role.items() if v == a[1]]
+            if len(axes) > 1:
+                rep.violation("H1", a[2], f, "mixed-axis extent %s - %s" % (a[0][2], a[1][2]), "x and y must not be combined", key="Circuit::hpwl|mixed-axis extent")
 
 
 def _commut_eq(a, b):
@@ -246,14 +255,8 @@ def check_w4(ctx, rep):
     }
     for fld, ok in allowed.items():
         q = CQ + "IncrNetModel::" + fld
-        ws = field_writes(ctx, q)
-        bad = [(f, x, u) for f, x, u in ws if f.short not in ok and u.why != "constructor initialiser"]
-        if bad:
-            for f, x, u in bad:
-                rep.violation("W4", u.node, f, "write to IncrNetModel::%s" % fld, "%s; allowed writers: %s" % (u.why, sorted(ok)),
-                              key="%s|writes IncrNetModel::%s" % (f.short, fld))
-        else:
-            rep.holds("W4", "-", None, "IncrNetModel::%s" % fld, "writers: %s" % sorted({f.short for f, _x, _u in ws}))
+        from .common import check_writers
+        check_writers(ctx, rep, "W4", q, ok, "IncrNetModel::%s" % fld)
 
 
 # ---- R5 ---------------------------------------------------------------------------
